@@ -187,6 +187,34 @@ def run(ctx):
                         why = "raised %s: %s" % (type(e).__name__, str(e)[:100])
                     if why:
                         ctx.violation("eig/svd/%s" % method, "svd(%dx%d, k=%s, mode=%s, method=%s): %s" % (m, n, k if kGiven else None, mode, method, why), {"m": m, "n": n, "k": k})
+                # rank-deficient operators (one singular value exactly zero: the Gram eigenvalue comes out as +-rounding): finite,
+                # non-negative singular values, the requested ones, and the factors reproduce A at full k
+                if min(m, n) >= 2:
+                    nrows += 1
+                    ctx.case(key=("svd-rank-deficient", m, n, k, kGiven, mode))
+                    r_ = min(m, n) - 1
+                    g_rd = torch.Generator().manual_seed(7000 + 100 * m + 10 * n + k + ctx.seed)
+                    Amat = torch.randn(m, r_, generator=g_rd, dtype=DT) @ torch.randn(r_, n, generator=g_rd, dtype=DT)
+                    why = None
+                    try:
+                        with torch.no_grad():
+                            u, s, vh = xitorch.linalg.svd(LinearOperator.m(Amat, is_hermitian=False), k=k if kGiven else None, mode=mode)
+                        kk = len(idx)
+                        sref = np.sort(np.linalg.svd(Amat.numpy(), compute_uv=False))
+                        if not (bool(torch.isfinite(s).all()) and bool(torch.isfinite(u).all()) and bool(torch.isfinite(vh).all())):
+                            why = "non-finite entries in the factors (singular values %s)" % s.tolist()
+                        elif tuple(u.shape) != (m, kk) or tuple(s.shape) != (kk,) or tuple(vh.shape) != (kk, n):
+                            why = "shapes u%s s%s vh%s" % (tuple(u.shape), tuple(s.shape), tuple(vh.shape))
+                        elif float(s.min()) < 0:
+                            why = "negative singular value"
+                        elif not np.allclose(np.sort(s.numpy()), sref[[i - 1 for i in idx]], atol=1e-6):
+                            why = "singular values %s are not the requested extreme ones %s" % (s.tolist(), sref[[i - 1 for i in idx]].tolist())
+                        elif kk == min(m, n) and not torch.allclose((u * s) @ vh, Amat, atol=1e-6):
+                            why = "U diag(S) V^H does not reproduce A at full k"
+                    except Exception as e:
+                        why = "raised %s: %s" % (type(e).__name__, str(e)[:100])
+                    if why:
+                        ctx.violation("eig/svd/rank-deficient", "svd(%dx%d of rank %d, k=%s, mode=%s): %s" % (m, n, r_, k if kGiven else None, mode, why), {"m": m, "n": n, "k": k})
     # ---- Davidson model and traces
     base = dict(MaxNA=6, MaxIter=8, KeepBest=True)
     t, cf = tlcmod.gen_mc(ctx.work, "Davidson", "MC_Dav", base, invariants=["Bounded", "AppliedOncePerVector", "ReturnsBest", "Terminates"])
@@ -269,6 +297,20 @@ def run(ctx):
         if ev0[0]["a"] == "raise":
             traces.append({"tid": tid, "cfg": {"na": 9, "neig": 2, "nguess": 2, "mode": "uppest", "M": False, "spectrum": "degenerate", "fixed": True}, "ev": ev0})
         ctx.case(key=("davidson-fixed-reproducer",))
+        # second recorded finding: a requested pair that is exactly degenerate, search space full after one expansion (na = neig + 1);
+        # orientation seed 59 of a sweep over 300 orientations (2 of them raise)
+        g1 = torch.Generator().manual_seed(59)
+        Am1 = herm(3, SPECTRA["degenerate"](3), (), DT, g1)
+        tid += 1
+        try:
+            with torch.no_grad():
+                e1, v1 = xitorch.linalg.symeig(HermOp(Am1), neig=2, mode="lowest", method="davidson", min_eps=1e-10)
+            ev1 = [{"a": "ret-unobserved", "verdicts": verdicts_symeig(e1, v1, Am1, None, [1, 2], 1e-5)}]
+        except Exception as e:
+            ev1 = [{"a": "raise", "exc": "%s: %s" % (type(e).__name__, str(e)[:100])}]
+        if ev1[0]["a"] == "raise":
+            traces.append({"tid": tid, "cfg": {"na": 3, "neig": 2, "nguess": 2, "mode": "lowest", "M": False, "spectrum": "degenerate", "fixed": True}, "ev": ev1})
+        ctx.case(key=("davidson-fixed-reproducer-2",))
     rej = ctx.validate_traces("Trace_Davidson.tla", "Trace_Davidson.cfg", traces, shards=8)
 
     def m_verdict(t):
@@ -299,6 +341,8 @@ def run(ctx):
         mult_ = max(int(np.sum(np.isclose(sp_, v))) for v in sp_)
         if ev and ev["a"] == "raise" and "cholesky" in ev["exc"] and mult_ > cfg_["neig"]:
             kk = "eig/davidson/dependent-expansion-vectors/multiplicity>neig"
+        elif ev and ev["a"] == "raise" and "cholesky" in ev["exc"] and mult_ == cfg_["neig"] and cfg_["na"] == cfg_["neig"] + 1 and not cfg_["M"]:
+            kk = "eig/davidson/dependent-expansion-vectors/degenerate-pair-na=neig+1"
         else:
             kk = "eig/davidson/%s" % ("+".join(failed) if failed else (ev["a"] if ev else "incomplete"))
         ctx.violation(kk,
